@@ -42,7 +42,8 @@ def items(tier):
     out.append({"kind": "labels", "rows": 1, "maxlen": L, "probe": True})      # join character allowed: confirms the open finding
     out.append({"kind": "labels", "rows": 2, "maxlen": L, "probe": True})
     out.append({"kind": "labels", "rows": 1, "maxlen": L, "clean": True})      # values without the join character: must hold outright
-    out.append({"kind": "labels", "rows": 2, "maxlen": L - 1, "clean": True})      # two rows: four symbolic strings; one character shorter to stay well inside the query timeout
+    if tier == "thorough":      # two rows = four symbolic strings: z3's sequence solver needs 5-30 s per query and occasionally gives up under load
+        out.append({"kind": "labels", "rows": 2, "maxlen": L - 1, "clean": True})
     out.append({"kind": "labels_single", "maxlen": L})
     out.append({"kind": "errors"})
     return out
